@@ -489,6 +489,22 @@ func cmdCheck(args []string) {
 	violations := 0
 	knownHits := 0
 	replays := 0
+	// an open known finding whose obligation no longer fails is worth a line: either the defect was repaired (the entry
+	// should become "fixed") or the obligation has become vacuous
+	for i := range known {
+		if known[i].Property != *prop || known[i].Status != "open" {
+			continue
+		}
+		hit := false
+		for _, ob := range failed {
+			if ob.Name == known[i].Obligation {
+				hit = true
+			}
+		}
+		if !hit {
+			fmt.Printf("NOTE: known finding not reproduced: property=%s obligation %s did not fail in this run (entry stale, or the obligation lost its force)\n", *prop, known[i].Obligation)
+		}
+	}
 	for _, ob := range failed {
 		var kf *knownFinding
 		for i := range known {
